@@ -41,7 +41,8 @@ seeded = '\n'.join(rows)
 path = os.path.join(HERE, 'DESIGN.md')
 s = open(path).read()
 for tag, body in (('FINDINGS', findings), ('SEEDED', seeded)):
-    pat = re.compile(r'<!-- TABLES:%s -->.*?(?=\n###? |\n---|\nStrengthening|\Z)' % tag, re.S)
-    s = pat.sub(lambda _: f'<!-- TABLES:{tag} -->\n{body}\n', s, count=1)
+    a, b = f'<!-- TABLES:{tag} -->', f'<!-- /TABLES:{tag} -->'
+    i, j = s.index(a), s.index(b)
+    s = s[:i] + a + '\n' + body + '\n' + s[j:]
 open(path, 'w').write(s)
 print('tables written:', len(fixed), 'fixed', len(known), 'known', n, 'seeded')
